@@ -62,6 +62,13 @@ Theorem C38_zero_batch_error_refuted : forall res fuel chks,
 Proof. exact zero_batch_spins. Qed.
 Print Assumptions C38_zero_batch_error_refuted.
 
+(* Tie T for the batch size of downsampleAggrLoop: the model's len / numChunks is the
+   expression assigned to batchSize in the Go source (translated into Gen/C38.v on every run). *)
+Theorem C38_batch_size_source : forall len nc,
+  Z.to_nat (aggr_batch_size (Z.of_nat len) (Z.of_nat nc)) = (len / nc)%nat.
+Proof. exact aggr_batch_size_model. Qed.
+Print Assumptions C38_batch_size_source.
+
 (* Non-vacuity: three 10 ms-resolution chunks re-downsampled to 30 ms in parts of one
    chunk each (num_chunks = 3); the second chunk lacks the max aggregate. *)
 Example C38_nonvacuous :
